@@ -1,8 +1,8 @@
-\* exhaustive, the code as it is (both deviation switches off): chains of <= 3 blocks, <= 2 reverts
+\* exhaustive, the code as it is (both deviation switches off): chains of <= 3 blocks, <= 1 revert
 \* measured: 1 290 distinct states, 504 369 transitions, depth 9, ~20 s on 4 workers
 CONSTANTS
   MaxLen = 3
-  MaxReverts = 2
+  MaxReverts = 1
   Txs <- MCTxs
   FixTxIndexMissingBlock = FALSE
   FixZeroHashState = FALSE
